@@ -2,15 +2,16 @@
 """Apply each seeded change to /repo, run the check(s) of its property, undo the change. Usage: seedtest.py [seed dirs..] [--checks C01,C02]"""
 import json, os, subprocess, sys, time
 VERIF = os.path.dirname(os.path.dirname(os.path.abspath(__file__)))
+REPO = os.environ.get("KTMC_REPO", "/repo")  # an isolated copy when run through `vp run --with-repo`
 args = [a for a in sys.argv[1:] if not a.startswith("--")]
 extra = [a.split("=", 1)[1].split(",") for a in sys.argv[1:] if a.startswith("--checks=")]
 tier = "thorough" if "--thorough" in sys.argv else "quick"
 seeds = [os.path.abspath(a) for a in args] or sorted(os.path.join(VERIF, "seeded", d) for d in os.listdir(os.path.join(VERIF, "seeded")))
-assert subprocess.run(["git", "-C", "/repo", "status", "--porcelain"], stdout=subprocess.PIPE).stdout.strip() == b"", "/repo not clean"
+assert subprocess.run(["git", "-C", REPO, "status", "--porcelain"], stdout=subprocess.PIPE).stdout.strip() == b"", "/repo not clean"
 for sd in seeds:
     meta = json.load(open(os.path.join(sd, "meta.json")))
     props = extra[0] if extra else [meta["property"]]
-    subprocess.run(["git", "-C", "/repo", "apply", os.path.join(sd, "patch.diff")], check=True)
+    subprocess.run(["git", "-C", REPO, "apply", os.path.join(sd, "patch.diff")], check=True)
     res = {}
     saved = {}
     try:
@@ -24,7 +25,7 @@ for sd in seeds:
             res[p] = {"exit": r.returncode, "wall_s": round(time.time() - t0, 1), "lines": [l[:400] for l in viol[:6]]}
             print(os.path.basename(sd), p, "exit", r.returncode, "%.1fs" % (time.time() - t0), (viol[1][:200] if len(viol) > 1 else out[-300:].strip()))
     finally:
-        subprocess.run(["git", "-C", "/repo", "checkout", "--", "."], check=True)
+        subprocess.run(["git", "-C", REPO, "checkout", "--", "."], check=True)
         # the evidence files must describe the unchanged tree: put back what was there before the seeded run
         for ev, data in saved.items():
             if data is None:
